@@ -695,3 +695,25 @@ impl<T> CtlStack<T> {
   pub fn put(&mut self, v: T) { self.stack.push(v) }
   pub fn get(&mut self) -> Option<T> { self.stack.pop() }
 }
+
+// ---------------------------------------------------------------- C02.U6
+pub struct EarlyReleaseSlot<O>(MutArc<Option<O>>);
+impl<Item, Err, O: Observer<Item, Err>> Observer<Item, Err> for EarlyReleaseSlot<O> {
+  fn next(&mut self, value: Item) {
+    if let Some(o) = &mut *self.0.rc_deref_mut() {
+      o.next(value)
+    }
+  }
+  fn error(self, err: Err) {
+    if let Some(o) = self.0.rc_deref_mut().take() {
+      o.error(err)
+    }
+  }
+  fn complete(self) {
+    let o = self.0.rc_deref_mut().take();
+    if let Some(o) = o {
+      o.complete()
+    }
+  }
+  fn is_finished(&self) -> bool { self.0.rc_deref().as_ref().map_or(true, |o| o.is_finished()) }
+}
